@@ -3,10 +3,12 @@
 cd "$(dirname "$0")/.."
 TIER=${1:-quick}
 python3 - "$TIER" <<'PY'
-import json,subprocess,sys,time
+import json,os,subprocess,sys,time
 tier=sys.argv[1]
+only=[x for x in os.environ.get('VERIF_ONLY','').split(',') if x]     # optional: VERIF_ONLY=C01,C05 runs just these
 m=json.load(open('MANIFEST.json'))
 for c in m['checks']:
+    if only and c['property_id'] not in only: continue
     cmd=c['quick_cmd'] if tier=='quick' else c.get('thorough_cmd',c['quick_cmd'])
     t=time.time()
     p=subprocess.run(cmd,shell=True,stdout=subprocess.PIPE,stderr=subprocess.STDOUT)
